@@ -68,3 +68,17 @@ Theorem C16_generated_guard_is_the_model : forall st s i t,
   wait_for_dependencies_ready (pview s (indel st i)) (pview s (succ_wait st i)) (pview s (succ_lazy st i)) (lazy st) t = deps_ok st s i t.
 Proof. exact tie_wait_for_dependencies. Qed.
 Print Assumptions C16_generated_guard_is_the_model.
+
+(* tie to the source: MosaikRemote.set_data and _assert_async_requests, regenerated from mosaik/simmanager.py on every run
+   (Gen/InputData.v), are the data plane's DSetData event: the value lands in the destination's set_data inputs under the
+   writer's key, and the write is refused unless the caller is an async-requests successor of the destination *)
+From MV Require Gen.InputData Sched.DataTie.
+Theorem C16_generated_set_data_is_the_model : forall st dt s ds i w j a v successors,
+  (forall x, In x (map fst (succ_wait st j)) -> In x successors) ->
+  dapply st dt (s, ds) (DSetData i w j a v) =
+  match Gen.InputData.set_data_write successors (map fst (succ_wait st j)) (setdata (ds j)) i (w * nsims st + i)%nat a v with
+  | Some sd' => let x := ds j in DOk s (dupd ds j (mkD (outputs x) (buffer x) (bcount x) (persist x) sd')) None
+  | None => DAsyncRefused i j
+  end.
+Proof. exact Sched.DataTie.tie_set_data. Qed.
+Print Assumptions C16_generated_set_data_is_the_model.
